@@ -265,6 +265,10 @@ func Run(s *simrt.Sim) {
 		nConn = 1 // a tunnel server has one fixed destination
 	}
 	concurrent := s.GenChance(128)
+	firstAlone := concurrent && s.GenChance(96) // history: one finished connection, then concurrent ones
+	if firstAlone {
+		s.Probe("c13.first-alone-then-concurrent")
+	}
 	scs := make([]*scenario, nConn)
 	for i := range scs {
 		sc := &scenario{idx: i, user: s.Choose(nUsers)}
@@ -385,6 +389,12 @@ func Run(s *simrt.Sim) {
 		cwg.Add(1)
 		if concurrent {
 			s.Go(fmt.Sprintf("client%d", sc.idx), run)
+			if firstAlone && sc.idx == 0 {
+				// the first connection runs to its end (and a little longer: the relay returns its
+				// resources after the client saw the end), the others then run side by side
+				cwg.Wait()
+				s.Sleep(time.Second)
+			}
 		} else {
 			s.Go(fmt.Sprintf("client%d", sc.idx), run)
 			cwg.Wait()
